@@ -241,6 +241,11 @@ def tasks(tier, seed):
         ts.append({"id": f"run[{cls},N=3]", "fn": "run_task",
                    "args": {"cls_name": cls, "ctype": ct, "cone": "orthant2", "W": W, "N": 3, "steps": 2 if (cls == "PaVeBa" or (cls == "PaVeBaGP" and tier != "quick")) else 1,
                             "batch": 1, "prop": "C07", "tier": tier}, "weight": 100})
+    # mid-run state with a decided design that is no longer useful (P \ U ≠ ∅, S ≠ ∅): the PaVeBa family must not sample it
+    for cls, ct in (("PaVeBaGP", "hyperrectangle"), ("PaVeBa", None), ("PaVeBaPartialGP", "hyperrectangle")):
+        ts.append({"id": f"run[{cls},S={{1,2}},P={{0}}]", "fn": "run_task",
+                   "args": {"cls_name": cls, "ctype": ct, "cone": "orthant2", "W": cs["orthant2"].tolist(), "N": 3, "steps": 1,
+                            "batch": 1, "prop": "C07", "tier": tier, "initial_S": [1, 2], "initial_P": [0]}, "weight": 100})
     # sparse mid-run active sets whose set-iteration order differs from the sorted order ({8, 1} iterates as 8, 1):
     # the pairing of queried designs and returned observations must not depend on that order
     for cls, ct in (("PaVeBa", None), ("Auer", None), ("VOGP", None), ("PaVeBaGP", "hyperrectangle")):
